@@ -445,7 +445,9 @@ class FieldValueComponentTimeDelta(FieldValueComponentKeyValueBase):
         if isinstance(value, datetime.timedelta):
             return cls(value)
 
-        return cls(datetime.timedelta(seconds=value))
+        time_delta = datetime.timedelta(seconds=value)
+
+        return cls(datetime.timedelta(seconds=int(time_delta.total_seconds())))
 
     @classmethod
     def _parse_value(cls, parser):
